@@ -74,6 +74,8 @@ type iterState struct {
 	KeyT    types.Type
 	ValT    types.Type
 	Last    *Term
+	Count   *Term // keys yielded so far
+	Len0    *Term // length of the map when the iteration started
 }
 
 // TraceEv is an input event used to rebuild concrete inputs.
